@@ -187,10 +187,12 @@ Section Sem.
     && match lf_ds (lf_of F L) with DsUnknown => false | _ => true end
     && match lf_ret (lf_of F L) with RetUnknown => false | _ => true end.
 
-  Definition generate (F : facts) (L : lang) (m : cmodel) (order free : list name) : gres :=
+  (** [cached] is the dict that Model.get_parameter_values() hands out (the cache's own dict) *)
+  Definition generate_from (F : facts) (L : lang) (m : cmodel) (order free : list name)
+             (cached : list (name * V)) : gres :=
     let lf := lf_of F L in
     if negb (facts_usable F L) then GErrFacts else
-    match pop_all free (base_params m) with
+    match pop_all free cached with
     | (false, _) => GErrKey
     | (true, pars) =>
       match emit_comps lf (emit_list F m order) with
@@ -208,9 +210,20 @@ Section Sem.
       end
     end.
 
-  (** what get_parameter_values() returns AFTER the call (the cached dict) *)
+  (** the first request on a model whose cache holds the plain parameters *)
+  Definition generate (F : facts) (L : lang) (m : cmodel) (order free : list name) : gres :=
+    generate_from F L m order free (base_params m).
+
+  (** what get_parameter_values() returns AFTER the call (the cached dict).  The dependency-order
+      loop reads [model._create_cache().order], which builds a NEW cache after the pops: whatever
+      was popped from the old cache's dict is gone with it *)
   Definition cache_after (F : facts) (m : cmodel) (free : list name) : list (name * V) :=
-    if f_copy F then base_params m else snd (pop_all free (base_params m)).
+    if f_copy F || match f_order F with OrdDep => true | _ => false end
+    then base_params m else snd (pop_all free (base_params m)).
+
+  (** the same request a second time on the same model object *)
+  Definition generate_again (F : facts) (L : lang) (m : cmodel) (order free : list name) : gres :=
+    generate_from F L m order free (cache_after F m free).
 
   (** ---- meaning of the emitted text ------------------------------------------------- *)
   Inductive slot := SVal (v : V) | SVec.      (* SVec: the whole input vector bound to one name *)
@@ -230,6 +243,7 @@ Section Sem.
   | RErrVec                (* arithmetic on the name that holds the whole vector *)
   | RErrArity              (* wrong number of inputs *)
   | RErrFn                 (* an inlined expression is undefined at these values *)
+  | RJunk                  (* a list whose entries are not numbers: Python's `return [()]` *)
   | RIllFormed.            (* the text is not a program of the language *)
 
   Inductive err := EUnbound | EVec | EFn.
@@ -317,7 +331,8 @@ Section Sem.
     | _ => true
     end
     && match lf_ret lf with
-       | RetBracket => negb (g_unit p)          (* "[()]" *)
+       | RetBracket => negb (g_unit p)          (* "[()]" is not an expression of TS / a [f64; n] of Rust ... *)
+                       || match L with Py => true | _ => false end   (* ... but a list holding a tuple in Python *)
        | RetBare => true
        | RetUnknown => false
        end
@@ -338,7 +353,11 @@ Section Sem.
         match run_body L e1 (g_body p) with
         | inr x => out_of_err x
         | inl e2 =>
-          if g_unit p then ROk []                   (* `return ()` *)
+          if g_unit p then
+            match lf_ret lf with
+            | RetBracket => RJunk                   (* `return [()]` (reached in Python only) *)
+            | _ => ROk []                           (* `return ()` *)
+            end
           else match looks e2 (g_ret p) with
                | inr x => out_of_err x
                | inl vs =>
@@ -372,6 +391,7 @@ Arguments RErrUnbound {V}.
 Arguments RErrVec {V}.
 Arguments RErrArity {V}.
 Arguments RErrFn {V}.
+Arguments RJunk {V}.
 Arguments RIllFormed {V}.
 Arguments m_par {V} _.
 Arguments m_var {V} _.
